@@ -377,4 +377,96 @@ theorem copyCharge_eq (s : IState) (len : Nat) (hl : len < U64) (hg : s.gas.rema
 theorem MemOK.bound {s : IState} (h : MemOK s) : s.gas.remaining < GAS_BOUND := by
   have := h.budget; omega
 
+/-! ## more plumbing -/
+
+theorem bind_assoc' {α β γ} (m : M α) (f : α → M β) (g : β → M γ) (s : IState) :
+    ((m >>= f) >>= g) s = (m >>= fun a => f a >>= g) s := by
+  show M.bind (M.bind m f) g s = M.bind m (fun a => M.bind (f a) g) s
+  unfold M.bind
+  cases m s <;> rfl
+
+theorem pure_bind' {α β} (a : α) (f : α → M β) (s : IState) : ((pure a : M α) >>= f) s = f a s := rfl
+
+theorem bind_fault {α β} (m : M α) (f : α → M β) (s : IState) (x : Fault) (h : m s = .fault x) :
+    (m >>= f) s = .fault x := by
+  show M.bind m f s = _
+  simp only [M.bind, h]
+
+theorem check_ok (fork : Nat) (s : IState) (h : enabled s.spec fork = true) : check fork s = .ok () s := by
+  simp [check, h]
+
+theorem check_fail (fork : Nat) (s : IState) (h : ¬ enabled s.spec fork = true) :
+    check fork s = .halt .NotActivated [] s := by
+  simp [check, h]
+
+theorem requireNonStatic_ok (s : IState) (h : s.isStatic = false) : requireNonStatic s = .ok () s := by
+  simp [requireNonStatic, h]
+
+theorem requireNonStatic_fail (s : IState) (h : s.isStatic = true) :
+    requireNonStatic s = .halt .StateChangeDuringStaticCall [] s := by
+  simp [requireNonStatic, h]
+
+/-- `gas_or_fail!(keccak256_cost(len))` -/
+theorem keccakCharge_eq (s : IState) (len : Nat) (hl : len < U64) (hg : s.gas.remaining < GAS_BOUND) :
+    gasOrFail (GasCalc.keccak256Cost len) s
+      = if s.gas.remaining < Spec.GasCalc.keccak256Cost len then .halt .OutOfGas [] s
+        else .ok () (charge s (Spec.GasCalc.keccak256Cost len)) :=
+  gasOrFail_words s GasCalc.KECCAK256 GasCalc.KECCAK256WORD len (by decide) (by decide) (by decide) hl hg
+
+/-- `gas_or_fail!(log_cost(n, len))`: the checked 64-bit sum fails only where the true cost exceeds any `u64` budget -/
+theorem logCharge_eq (s : IState) (n len : Nat) (hg : s.gas.remaining < U64) :
+    gasOrFail (GasCalc.logCost n len) s
+      = if s.gas.remaining < Spec.GasCalc.logCost n len then .halt .OutOfGas [] s
+        else .ok () (charge s (Spec.GasCalc.logCost n len)) := by
+  cases hc : GasCalc.logCost n len with
+  | none =>
+    have : ¬ Spec.GasCalc.logCost n len < U64 := by
+      intro hlt
+      have := (Proofs.GasCalc.logCost_iff n len _).mpr ⟨rfl, hlt⟩
+      rw [hc] at this; cases this
+    rw [if_pos (by omega)]; rfl
+  | some v =>
+    obtain ⟨hv, _⟩ := (Proofs.GasCalc.logCost_iff n len v).mp hc
+    rw [hv]
+    unfold gasOrFail
+    simp only []
+    by_cases hlt : s.gas.remaining < v
+    · rw [if_pos hlt, gasCharge_fail s _ hlt]
+    · rw [if_neg hlt, gasCharge_ok s _ hg (by omega)]; rfl
+
+/-! ## stepping through the `pre` part of a host instruction -/
+
+theorem hostCall_ok {α β} (m : M α) (f : α → M (HostOp × β)) (post : β → HostResp → M Unit) (s s' : IState) (a : α)
+    (h : m s = .ok a s') : hostCall (m >>= f) post s = hostCall (f a) post s' := by
+  unfold hostCall; rw [bind_ok _ _ _ _ _ h]
+
+theorem hostCall_halt {α β} (m : M α) (f : α → M (HostOp × β)) (post : β → HostResp → M Unit) (s s' : IState) (r o)
+    (h : m s = .halt r o s') : hostCall (m >>= f) post s = .halt r o s' := by
+  unfold hostCall; rw [bind_halt _ _ _ _ _ _ h]
+
+theorem hostCall_assoc {α γ β} (m : M α) (g : α → M γ) (f : γ → M (HostOp × β)) (post : β → HostResp → M Unit)
+    (s : IState) : hostCall ((m >>= g) >>= f) post s = hostCall (m >>= fun a => g a >>= f) post s := by
+  unfold hostCall; rw [bind_assoc']
+
+theorem hostCall_pure {β} (op : HostOp) (b : β) (post : β → HostResp → M Unit) (s : IState) :
+    hostCall (pure (op, b)) post s = .host op (fun r => (post b r s).toDone) := rfl
+
+theorem hostCallAction_ok {α β} (m : M α) (f : α → M (HostOp × β)) (post : β → HostResp → M Action) (s s' : IState)
+    (a : α) (h : m s = .ok a s') : hostCallAction (m >>= f) post s = hostCallAction (f a) post s' := by
+  unfold hostCallAction; rw [bind_ok _ _ _ _ _ h]
+
+theorem hostCallAction_halt {α β} (m : M α) (f : α → M (HostOp × β)) (post : β → HostResp → M Action)
+    (s s' : IState) (r o) (h : m s = .halt r o s') : hostCallAction (m >>= f) post s = .halt r o s' := by
+  unfold hostCallAction; rw [bind_halt _ _ _ _ _ _ h]
+
+theorem hostCallAction_assoc {α γ β} (m : M α) (g : α → M γ) (f : γ → M (HostOp × β))
+    (post : β → HostResp → M Action) (s : IState) :
+    hostCallAction ((m >>= g) >>= f) post s = hostCallAction (m >>= fun a => g a >>= f) post s := by
+  unfold hostCallAction; rw [bind_assoc']
+
+theorem hostCallAction_pure {β} (op : HostOp) (b : β) (post : β → HostResp → M Action) (s : IState) :
+    hostCallAction (pure (op, b)) post s = .host op (fun r => (post b r s).toDoneAction) := rfl
+
+theorem getS_ok (s : IState) : getS s = .ok s s := rfl
+
 end Revm.Proofs.EvmStep2
